@@ -329,6 +329,51 @@ def oracle_landscape_candidates(ck, rng):
                                  key={"site": "masked-multi-template", "model": Mu.__name__}, oracle="masked_multi_template")
 
 
+def oracle_raw_counts(ck, rng):
+    """single-precision sub-volumes on a grey level far above their contrast (raw detector counts: mean 1000-3000, deviation 1-4): the offset
+    clause of the property for the landscape and alignment entry points - landscape centre = zero-range alignment score = score = Pearson
+    (double precision reference), landscape within [-1, 1], arg-max at the displacement align reports"""
+    from scipy import ndimage as ndi
+    from acryo.alignment import ZNCCAlignment
+    n = 2 if ck.tier == "quick" else 12
+    for it in range(n):
+        shape = tuple(int(x) for x in rng.integers(16, 24, size=3))
+        temp = ndi.gaussian_filter(rng.normal(size=shape), 1.5)
+        temp = (temp / temp.std()).astype(np.float32)
+        sh = tuple(int(x) for x in rng.integers(-2, 3, size=3))
+        base = (ndi.shift(temp, sh, order=1, mode="wrap") + 0.3 * rng.normal(size=shape)).astype(np.float32)
+        model = ZNCCAlignment(temp)
+        quat, pos = np.array([0.0, 0.0, 0.0, 1.0]), np.zeros(3)
+
+        def pearson(a, b):
+            a = np.asarray(a, dtype=np.float64).ravel(); b = np.asarray(b, dtype=np.float64).ravel()
+            a = a - a.mean(); b = b - b.mean()
+            return float(a @ b / np.sqrt((a @ a) * (b @ b)))
+        for gain, offset in [(1.0, 0.0), (1.0, 1000.0), (2.0, 3000.0), (4.0, 500.0)]:
+            img = (gain * base + offset).astype(np.float32)
+            ref = pearson(img, temp)
+            bad = []
+            try:
+                score = float(model.score(img, quat, pos))
+                lnd = np.asarray(model.landscape(img, (3, 3, 3)))
+                centre = float(lnd[3, 3, 3])
+                zero = float(model.align(img, (0, 0, 0)).score)
+                res = model.align(img, (3, 3, 3))
+                arg = np.array(np.unravel_index(int(np.argmax(lnd)), lnd.shape)) - 3
+                if abs(score - ref) > 5e-3: bad.append(f"score {score:.4f} but Pearson {ref:.4f}")
+                if abs(centre - ref) > 5e-3: bad.append(f"landscape centre {centre:.4f} but Pearson {ref:.4f}")
+                if abs(zero - ref) > 5e-3: bad.append(f"zero-range alignment score {zero:.4f} but Pearson {ref:.4f}")
+                if float(lnd.max()) > 1 + 5e-3 or float(lnd.min()) < -1 - 5e-3: bad.append(f"landscape leaves [-1, 1]: [{float(lnd.min()):.3f}, {float(lnd.max()):.3f}]")
+                if np.abs(np.asarray(res.shift) - arg).max() > 0.75: bad.append(f"landscape arg-max at {arg.tolist()} but align reports {np.round(res.shift, 2).tolist()}")
+            except Exception as e:  # noqa
+                bad.append(f"raised {type(e).__name__}: {e}")
+            ck.oracle_count("raw_counts_offset", 1, 1)
+            if bad:
+                ck.violation(what=f"float32 sub-volume = {gain} x image + {offset} (contrast about {gain:.0f}): " + "; ".join(bad[:3]),
+                             inp={"shape": list(shape), "gain": gain, "offset": offset, "shift": list(sh), "seed": ck.seed, "iteration": it},
+                             key={"site": "raw-counts", "offset": offset, "symptom": bad[0].split(" ")[0]}, oracle="raw_counts_offset")
+
+
 def run(ck: common.Check):
     ck.design_ref = "DESIGN.md §6 C07"
     ck.trusted_base = TB
@@ -342,6 +387,7 @@ def run(ck: common.Check):
     corr_scores(ck, rng)
     oracle_props(ck, rng)
     oracle_landscape_candidates(ck, rng)
+    oracle_raw_counts(ck, np.random.default_rng(ck.seed + 7007))
 
 
 def replay(data):
